@@ -39,6 +39,10 @@ type Machine struct {
 	HarnessP map[string]bool // package paths that carry vf* intrinsics
 	depth    int
 	InInit   bool
+
+	WasmFiles map[string]string // module name -> .wasm file (E2)
+	wasmMods  map[string]*wasmModule
+	wasmInsts []*wasmInst
 }
 
 type deferred struct {
@@ -70,6 +74,7 @@ func NewMachine(prog *ssa.Program, ex *Explorer) *Machine {
 	}
 	registerIntrinsics(m)
 	registerBig(m)
+	registerWasm(m)
 	return m
 }
 
